@@ -137,8 +137,13 @@ type ProgOpts struct {
 // GenProgram generates a well-typed multi-package program over the supported fragment.
 func GenProgram(r *RNG, o ProgOpts) *Program {
 	g := &progGen{r: r, v2: o.V2}
-	prog := &Program{Module: "example.com/m", V2: o.V2}
-	paths := []string{"example.com/m/a", "example.com/m/b", "example.com/m/a/sub", "example.com/m/c-d", "example.com/m/v1"}
+	root := "example.com/m"
+	if r.Chance(1, 5) {
+		// import paths that begin like the spelling of an anonymous type
+		root = r.Pick([]string{"changelog", "functions", "mapper", "structs", "chan2", "interfaces"})
+	}
+	prog := &Program{Module: root, V2: o.V2}
+	paths := []string{root + "/a", root + "/b", root + "/a/sub", root + "/c-d", root + "/v1"}
 	np := 1 + r.Intn(o.MaxPkgs)
 	for pi := 0; pi < np; pi++ {
 		path := paths[pi]
@@ -495,4 +500,15 @@ func (c *Checked) FactLines(p *Program) []string {
 		pkgLines = append(pkgLines, Line("uni", "pkg", Hex(pk.Path), Hex(tp.Name()), HexList(pk.Imports), of))
 	}
 	return append(e.lines, pkgLines...)
+}
+
+// ModuleOfPath: the module (v2) / root directory a generated package path belongs to
+func ModuleOfPath(p string) string {
+	if strings.HasPrefix(p, "example.com/m") {
+		return "example.com/m"
+	}
+	if i := strings.Index(p, "/"); i > 0 {
+		return p[:i]
+	}
+	return p
 }
